@@ -98,14 +98,30 @@ func Verif_Step_sack_layout() {
 		V.Assume(V.All(P[o] == 1, P[o+1] == 1, P[o+2] == 8, P[o+3] == 10))
 		o += 12
 	}
-	V.Assume(V.All(P[o] == 1, P[o+1] == 1, P[o+2] == 5, int(P[o+3]) == 2+8*nb))
+	anylen := V.ParamInt("anylen", 0) == 1
+	if anylen {
+		// the SACK option's length byte is arbitrary within the option area (lengths that are not 2+8n included:
+		// a trailing partial block must be ignored, never read)
+		V.Assume(V.All(P[o] == 1, P[o+1] == 1, P[o+2] == 5, P[o+3] >= 2, int(P[o+3]) <= 2+8*nb))
+		// whatever the option leaves of the area is NOP padding (otherwise the tail is a second arbitrary option list)
+		for k := o + 2 + V.Concretize(int(P[o+3])); k < L; k++ {
+			V.Assume(P[k] == 1)
+		}
+	} else {
+		V.Assume(V.All(P[o] == 1, P[o+1] == 1, P[o+2] == 5, int(P[o+3]) == 2+8*nb))
+	}
 	V.ClockAdvance(time.Duration(V.U32("flight"))) // the reply arrives an arbitrary time after the last send
 	src.Next = append([]byte(nil), P...)
 	resp, err := d.ReceiveProbe(100 * time.Millisecond)
 	if err != nil {
 		V.Reach("rejected")
 		var ns *NotSupportedError
-		V.Assert(!errors.As(err, &ns), "C09/sack-blocks-present-never-unsupported")
+		if !anylen {
+			V.Assert(!errors.As(err, &ns), "C09/sack-blocks-present-never-unsupported")
+		} else if errors.As(err, &ns) {
+			V.Reach("not-supported")
+			return
+		}
 		V.Assert(common.CheckProbeRetryable("ReceiveProbe", err), "C09/retryable")
 		return
 	}
